@@ -297,11 +297,15 @@ def with_shared(base_fn, shares):
 
 _c01, _c02, _c03, _c04, _c05, _c06, _c07, _c08, _c16 = c01, c02, c03, c04, c05, c06, c07, c08, c16
 c03 = with_shared(_c03, [(_c16, {'C16.O1': 'C03.j'}, 'a routine record is complete (final frame size, argument count, stack map) whenever a call can read it: records are written only when a routine is finished'),
+                         (_c08, {'C08.a': 'C03.l', 'C08.b': 'C03.l2'}, 'the debugger rewrites the opcode at every site listed for a location: the listed sites are exactly the marker instructions, so no jump, call or return of the program is ever turned into a marker'),
                          (_c04, {'C04.e': 'C03.k'}, 'marks are resolved within the routine that uses them and a jump to a mark that routine does not define is rejected, so every jump lands inside its own routine')])
 c01 = with_shared(_c01, [(_c03, {'C03.f': 'C01.h'}, 'a call binds the record of the routine registered under that name; the latest definition is registered by assignment'),
                          (_c04, {'C04.e': 'C01.k'}, 'a GOTO / IF..GOTO jumps to the mark of that name in its own program: marks are kept per routine and a mark the routine does not define is rejected'),
                          (c17, {'C17.Z1': 'C01.j'}, 'a reset machine is in the constructor state, so a run after reset() computes what the first run computes'),
                          (c10, {'C10.a': 'C01.i', 'C10.d': 'C01.i2'}, 'macro temporaries of different expansions never coincide, so expansion preserves the meaning of nested macro uses'),
+                         (c07, {'C07.h': 'C01.m'}, 'the value of a user-named variable of a live activation is the word at that activation\'s own data_start + register: the view through which "every user-named variable of every live activation" is read'),
+                         (c20, {'C20.A1': 'C01.n'}, 'x+c and truncated x-c are computed in a wider type and saturate: no signed overflow in the machine\'s arithmetic'),
+                         (c09, {'C09.a': 'C01.l3', 'C09.b': 'C01.l4', 'C09.d': 'C01.l5'}, 'which macro use is rewritten (highest priority, then leftmost, then longest) and where its body is spliced in is part of what a source with macros means'),
                          (c09, {'C09.e': 'C01.l', 'C09.f': 'C01.l2'}, 'a macro use means its body with every $n replaced by what slot n matched, and a literal of the pattern matches by kind and (identifiers, integers, operators) by text: otherwise a program using macros computes something else')])
 c02 = with_shared(_c02, [(c15, {'C15.I4': 'C02.g', 'C15.I6': 'C02.g2'}, 'scanning terminates: no hang on include cycles'),
                          (c20, {'C20.A3': 'C02.h', 'C20.A2': 'C02.h2'}, 'no undefined arithmetic inside compile() and no conversion that throws out of it'),
@@ -311,13 +315,21 @@ c02 = with_shared(_c02, [(c15, {'C15.I4': 'C02.g', 'C15.I6': 'C02.g2'}, 'scannin
                          (c12, {'C12.a': 'C02.j', 'C12.f': 'C02.j2'}, 'the conflict error of a definition is located at that definition\'s own first pattern token, a position in a supplied file')])
 c04 = with_shared(_c04, [(c20, {'C20.A2': 'C04.f', 'C20.A3': 'C04.f2'}, 'every literal that reaches an instruction is range-checked'),
                          (c14, {'C14.L2': 'C04.g'}, 'the terminals have their documented lexical form'),
+                         (_c16, {'C16.O1': 'C04.j'}, 'a RUN of a name that is not defined earlier is rejected: the routine table is read only where the name was found, never through an inserting subscript that makes the name known'),
+                         (_c03, {'C03.g': 'C04.k'}, 'every jump target is a label of the same program body: a mark that is never set is reported, which needs createLabel\'s "not set" value to be the one the tests compare with'),
                          (_c03, {'C03.f': 'C04.h'}, 'the argument-count rule is checked against the record of the latest definition of the called name'),
                          (_c02, {'C02.e': 'C04.i'}, 'a source is accepted only if no stage recorded an error: correctness is decided after all stage errors were merged')])
-c05 = with_shared(_c05, [(c08, {'C08.a': 'C05.f', 'C08.b': 'C05.f2', 'C08.c': 'C05.f3'}, 'the sites the VM rewrites are exactly the POTENTIAL_BREAK instructions the generator listed'),
+c05 = with_shared(_c05, [(_c06, {'C06.b': 'C05.h'}, 'the enabled set names every armed site, so that clearing and resetting disarm all of them: an armed site that nobody lists stops a run that was asked to run through'),
+                         (c08, {'C08.a': 'C05.f', 'C08.b': 'C05.f2', 'C08.c': 'C05.f3'}, 'the sites the VM rewrites are exactly the POTENTIAL_BREAK instructions the generator listed'),
                          (c17, {'C17.Z1': 'C05.g', 'C17.Z2': 'C05.g2'}, 'reset() disarms every site it forgets: a run after reset() with nothing enabled is the uninterrupted run')])
-c06 = with_shared(_c06, [(_c05, {'C05.b': 'C06.f'}, 'break handlers advance by exactly one instruction, so no site is skipped and the location lookup finds the site just passed'),
+c06 = with_shared(_c06, [(_c05, {'C05.d': 'C06.h'}, 'resuming is a loop of single steps that returns at the first step that reports a stop, and not before'),
+                         (_c05, {'C05.b': 'C06.f'}, 'break handlers advance by exactly one instruction, so no site is skipped and the location lookup finds the site just passed'),
                          (_c08, {'C08.a': 'C06.g', 'C08.b': 'C06.g2'}, 'the site armed for a location is the marker emitted for that location and line_info names the same location for it, so a stop is reported at the line that was enabled')])
-c07 = with_shared(_c07, [(c08, {'C08.a': 'C07.i'}, 'a site is created (and listed) on every call of breakpoint()'),
+c07 = with_shared(_c07, [(_c03, {'C03.e': 'C07.n'}, 'every parameter has a register (and stack-map entry) of its own, so the view shows each variable with its own value'),
+                         (c17, {'C17.Z1': 'C07.l'}, 'after a reset no activation of the earlier run is left: the view lists the activations of this run only'),
+                         (_c06, {'C06.d': 'C07.m'}, 'the line reported at a stop is the line of the site that was just passed'),
+                         (c20, {'C20.A1': 'C07.o'}, 'the values the view shows are the source-level values: x+c and x-c are computed without signed overflow and saturate'),
+                         (c08, {'C08.a': 'C07.i'}, 'a site is created (and listed) on every call of breakpoint()'),
                          (_c03, {'C03.f': 'C07.j'}, 'a call enters the routine of the latest definition under that name, so the lines visited and the variables listed are those of the routine the source calls')])
 c08 = with_shared(_c08, [(_c06, {'C06.b': 'C08.f', 'C06.c': 'C08.f2', 'C06.e': 'C08.g'}, 'the VM never adds a location: enable/clear only touch listed locations; locations are keyed by an order that keeps distinct (file, line) pairs apart'),
                          (_c05, {'C05.a': 'C08.f3'}, 'the VM writes only opcodes at listed sites')])
